@@ -16,7 +16,7 @@ Lemma sorted_by_mid : forall cmp a b c, sorted_by cmp (a ++ b ++ c) -> sorted_by
 Proof.
   intros cmp a b c H pre k v mid k' v' post Hb.
   apply (H (a ++ pre) k v mid k' v' (post ++ c)).
-  rewrite Hb. rewrite <- !app_assoc. cbn [app]. rewrite <- !app_assoc. reflexivity.
+  rewrite Hb. rewrite <- ?app_assoc. cbn [app]. rewrite <- ?app_assoc. reflexivity.
 Qed.
 
 Lemma sorted_by_app_l : forall cmp a b, sorted_by cmp (a ++ b) -> sorted_by cmp a.
@@ -31,7 +31,7 @@ Proof.
   intros cmp a b [k v] [k' v'] H Hx Hy.
   destruct (in_split _ _ Hx) as [a1 [a2 ->]]. destruct (in_split _ _ Hy) as [b1 [b2 ->]].
   cbn [fst]. apply (H a1 k v (a2 ++ b1) k' v' b2).
-  rewrite <- !app_assoc. cbn [app]. rewrite <- !app_assoc. reflexivity.
+  rewrite <- ?app_assoc. cbn [app]. rewrite <- ?app_assoc. reflexivity.
 Qed.
 
 (* the static facts about a built block that the simulation of BlockSeekProofs needs *)
